@@ -601,8 +601,27 @@ batches:
 		if tier != "thorough" || nowS()-t0 > budget-30 || trouble != "" {
 			break batches
 		}
-		if len(a.findings) > 40 {
-			break batches
+		unknown := 0
+		kf := loadKnown()
+		for i := range a.findings {
+			if matchKnown(kf, &a.findings[i]) == nil {
+				unknown++
+			}
+		}
+		if unknown > 40 {
+			break batches // enough to report; known findings do not stop the exploration
+		}
+		if len(a.findings) > 400 {
+			// keep memory bounded: known findings beyond a few hundred add nothing
+			keep := a.findings[:0]
+			n := 0
+			for i := range a.findings {
+				if matchKnown(kf, &a.findings[i]) == nil || n < 50 {
+					keep = append(keep, a.findings[i])
+					n++
+				}
+			}
+			a.findings = keep
 		}
 	}
 	a.yieldPoints = yieldPoints
